@@ -111,6 +111,11 @@ pub fn check(c: &Case) -> CheckResult {
         if *other != base {
             return Err(Fail::new(format!("equal-contents-unequal:{}", name), format!("range built by history '{}' has identical combos and weights but compares unequal", name)));
         }
+        // a formatting call cut short by its sink precedes some of the histories
+        if name.len() % 2 == 0 {
+            format_cut_short(&odd_range(), (c.seed >> 4) as usize % 40);
+            format_cut_short(other, (c.seed >> 12) as usize % 24);
+        }
         let t2 = other.to_string();
         if t2 != text {
             return Err(Fail::new(
